@@ -99,11 +99,48 @@ def _names_never_substituted(ast_tree: ast.Module) -> Collection[str]:
     )
 
 
+def _spelled_names(node: ast.AST) -> Sequence[str]:
+    """The identifiers that a node spells out as a variable, definitions with def and class aside."""
+    if isinstance(node, ast.Name):
+        return [node.id]
+    if isinstance(node, ast.arg):
+        return [node.arg]
+    if isinstance(node, ast.alias):
+        return [(node.asname or node.name).split(".")[0]]
+    if isinstance(node, (ast.Global, ast.Nonlocal)):
+        return node.names
+    if isinstance(node, (ast.ExceptHandler, ast.MatchAs, ast.MatchStar)):
+        return [node.name] if node.name else []
+    if isinstance(node, ast.MatchMapping):
+        return [node.rest] if node.rest else []
+
+    return []
+
+
+def _names_spelled_elsewhere(root: ast.AST, renamed_nodes: Iterable[ast.AST]) -> Collection[str]:
+    """Names that are renamed in some places and still spelled in others.
+
+    What is left behind - a loop target, a parameter of a lambda, a read in a closure above the
+    assignment - is another variable after the renaming, or the renamed places were never the
+    same variable.
+    """
+    spelled_count = collections.Counter(
+        name for node in ast.walk(root) for name in _spelled_names(node)
+    )
+    renamed_count = collections.Counter(
+        node.id for node in renamed_nodes if isinstance(node, ast.Name)
+    )
+    return {name for name, count in renamed_count.items() if count != spelled_count[name]}
+
+
 def _fix_variable_names(
     source: str, renamings: Mapping[ast.AST, str], preserve: Collection[str] = frozenset()
 ) -> str:
     replacements = []
     ast_tree = core.parse(source)
+    names_left_alone = _names_spelled_elsewhere(
+        ast_tree, [node for node, substitutes in renamings.items() if len(substitutes) == 1]
+    )
     blacklisted_names = _names_never_substituted(ast_tree)
     for node, substitutes in renamings.items():
         if len(substitutes) != 1:
@@ -112,7 +149,7 @@ def _fix_variable_names(
         if substitute in blacklisted_names:
             continue
         if isinstance(node, ast.Name):
-            if node.id != substitute and node.id not in preserve:
+            if node.id != substitute and node.id not in preserve | names_left_alone:
                 start, end = core.get_charnos(node, source)
                 replacements.append((start, end, substitute))
             continue
@@ -543,6 +580,7 @@ def align_variable_names_with_convention(
     declared_names = {
         name for node in core.walk(ast_tree, (ast.Global, ast.Nonlocal)) for name in node.names
     }
+    names_left_alone = _names_spelled_elsewhere(ast_tree, renamings)
     transaction = 0
     for substitute, nodes in substitute_node_renamings.items():
         old_names = {node.id if isinstance(node, ast.Name) else node.name for node in nodes}
@@ -550,6 +588,8 @@ def align_variable_names_with_convention(
             continue  # Two different names, e.g. fooBar and FooBar, must not become the same name
         if old_names & declared_names:
             continue  # "global hitCount" would no longer be about the renamed variable
+        if old_names & names_left_alone:
+            continue  # One variable would become two, or two variables one
 
         replacements = []
         for node in nodes:
@@ -1177,10 +1217,12 @@ def remove_duplicate_functions(source: str, preserve: Collection[str]) -> str:
         source = new_source
         root = core.parse(source)
         duplicates = {(node.name, node.lineno) for node in delete}
+        # A duplicate whose uses could not all be redirected is still in use, and must stay
+        names_in_use = {node.id for node in core.walk(root, ast.Name)}
         delete = {
             node
             for node in core.walk(root, (ast.FunctionDef, ast.AsyncFunctionDef))
-            if (node.name, node.lineno) in duplicates
+            if (node.name, node.lineno) in duplicates and node.name not in names_in_use
         }
     if delete:
         source = processing.remove_nodes(source, delete, root)
